@@ -34,7 +34,7 @@ Section FileVal.
     | [] => Some []
     | o :: r =>
       match o with
-      | ONotDir | OErr => None                                     (* return err *)
+      | OErr => None                                               (* return err (not IsNotExist, not ENOTDIR) *)
       | ODir => dirs_pass (i + 1) r
       | _ => option_map (cons (mkwound WDir i 0 0)) (dirs_pass (i + 1) r)
       end
@@ -46,7 +46,7 @@ Section FileVal.
     | [] => Some []
     | (want, o) :: r =>
       match o with
-      | ONotDir | OErr => None                                     (* Readlink error, not IsNotExist *)
+      | OErr => None                                               (* Readlink error, neither IsNotExist nor ENOTDIR *)
       | OLink d => if N.eqb d want then links_pass (i + 1) r
                    else option_map (cons (mkwound WSymlink i 0 0)) (links_pass (i + 1) r)
       | _ => option_map (cons (mkwound WSymlink i 0 0)) (links_pass (i + 1) r)
@@ -77,8 +77,9 @@ Section FileVal.
     | (signed, o) :: r => file_wounds i signed o ++ files_pass (i + 1) r
     end.
 
-  (** the run: [None] = Validate returned an I/O error; else every marker sent *)
-  Definition validate (ds : list obs) (ls : list (N * obs)) (fs : list (list N * obs)) : option (list wound) :=
+  (** the three passes on given per-entry observations: [None] = Validate returned an I/O
+      error; else every marker sent *)
+  Definition validate_core (ds : list obs) (ls : list (N * obs)) (fs : list (list N * obs)) : option (list wound) :=
     match dirs_pass 0 ds with
     | None => None
     | Some wd =>
@@ -91,7 +92,41 @@ Section FileVal.
   (** what a WoundsWriter records / what makes the guardian fail *)
   Definition reported (ws : list wound) : list wound := filter (fun w => negb (healthy w)) ws.
 
-  Definition failfast (ds : list obs) (ls : list (N * obs)) (fs : list (list N * obs)) : rcls :=
+  Definition failfast_core (ds : list obs) (ls : list (N * obs)) (fs : list (list N * obs)) : rcls :=
+    match validate_core ds ls fs with
+    | None => RErr
+    | Some ws => match reported ws with [] => ROk | _ => RErr end
+    end.
+
+  (** [woundedDirs]: a directory of the container that is wounded hides everything below it -
+      nothing below is looked at on disk, it is all wounded.  Each entry carries [anc], the
+      indices (into the container's directory list) of its ancestor directories.  Directories
+      are processed in container order, so a directory only sees the flags of directories
+      before it. *)
+  Definition is_dir (o : obs) : bool := match o with ODir => true | _ => false end.
+  Definition under (flags : list bool) (anc : list nat) : bool :=
+    existsb (fun a => nth a flags false) anc.
+  Definition eff (u : bool) (o : obs) : obs := if u then OMissing else o.
+
+  (** effective observations of the directories and the wounded flags, left to right *)
+  Fixpoint eff_dirs (flags : list bool) (ds : list (list nat * obs)) : list obs * list bool :=
+    match ds with
+    | [] => ([], flags)
+    | (anc, o) :: r =>
+      let e := eff (under flags anc) o in
+      let '(es, fl) := eff_dirs (flags ++ [negb (is_dir e)]) r in
+      (e :: es, fl)
+    end.
+
+  Definition validate (ds : list (list nat * obs)) (ls : list (list nat * N * obs))
+             (fs : list (list nat * list N * obs)) : option (list wound) :=
+    let '(eds, flags) := eff_dirs [] ds in
+    validate_core eds
+      (map (fun x => let '(anc, want, o) := x in (want, eff (under flags anc) o)) ls)
+      (map (fun x => let '(anc, signed, o) := x in (signed, eff (under flags anc) o)) fs).
+
+  Definition failfast (ds : list (list nat * obs)) (ls : list (list nat * N * obs))
+             (fs : list (list nat * list N * obs)) : rcls :=
     match validate ds ls fs with
     | None => RErr
     | Some ws => match reported ws with [] => ROk | _ => RErr end
